@@ -2,6 +2,8 @@ import Casket.Proofs.PeerBytes
 import Casket.Proofs.FCGI
 import Casket.Spec.PeerBytes
 import Casket.Generated.Mitm
+import Casket.Props.C20
+import Casket.Proofs.HelloSpec
 /-
 C19 — Bytes from network peers cannot crash handlers or skew what is recorded.
 
@@ -54,6 +56,17 @@ theorem C19_pairs_total (typ id : Nat) (ps : List Casket.FCGI.Pair) :
     IsOk (Casket.FCGI.writePairs typ id ps) :=
   Casket.FCGI.writePairs_ok typ id ps
 
+/-- Placeholder expansion (`httpserver.Replacer`, modelled by slice C20 in Model/Replacer.lean):
+for every format and every request — every header, cookie, query, path, Host and remote-address
+text a peer can send, carried by the environment `σ` — `Replace` returns a value: no index or slice
+expression of `Replace`/`getSubstitution` (`key[1]`, `key[2:len(key)-1]`, `labels[n-1]`, …) goes out
+of range and the scan terminates.  This is slice C20's `C20_total`, restated here because C19 names
+the placeholders; the stream c19.replacer runs the real `Replace` on hostile request text against
+that same model. -/
+theorem C19_replacer_total (σ : Casket.Replacer.Env) (fmt : Casket.Replacer.Bytes) :
+    ∃ out, Casket.Replacer.replace σ fmt = .ok out :=
+  Casket.Props.C20.C20_total σ fmt
+
 /-- What is recorded about a ClientHello does not depend on how the bytes were split across
 reads: every segmentation (empty reads included) records what the unsplit delivery records. -/
 theorem C19_segmentation_independent (segs : List Bytes) :
@@ -71,6 +84,54 @@ theorem C19_recorded_total (segs : List Bytes) : IsOk (recorded segs) := by
     obtain ⟨i, hi⟩ := parseRawClientHello_ok h
     simp only [hi]
     exact isOk_ok _
+
+/-! ### what is recorded is what the bytes say -/
+
+/-- For EVERY byte string the model of `parseRawClientHello` (the Go code's index arithmetic)
+returns the reference reading `HelloSpec.specRead` (RFC field readers: version, random, session id,
+cipher suites, compression methods, extensions with elliptic_curves and ec_point_formats, up to
+the first field that is not well-formed).  The judge of c19.hello and c19.seg holds the real
+parser to that reading, so a mis-parse that does not panic is a judged failure. -/
+theorem C19_recorded_is_reference_reading (bs : Bytes) :
+    parseRawClientHello bs = .ok (Casket.HelloSpec.specRead bs) :=
+  Casket.HelloSpec.parse_eq_spec bs
+
+/-- and the reference reading of the RFC 5246 encoding of a well-formed ClientHello `m` (any
+session id up to 32 bytes, any cipher list, any extensions, several curve / point-format
+extensions included) is exactly what `m` says: the spec is not an arbitrary function -/
+theorem C19_reference_reading_of_wellformed (m : Casket.HelloSpec.HelloMsg) (h : Casket.HelloSpec.WF m) :
+    Casket.HelloSpec.specRead (Casket.HelloSpec.encode m) = Casket.HelloSpec.infoOf m :=
+  Casket.HelloSpec.specRead_encode m h
+
+/-- hence the model records a well-formed ClientHello as sent -/
+theorem C19_wellformed_hello_recorded_as_sent (m : Casket.HelloSpec.HelloMsg) (h : Casket.HelloSpec.WF m) :
+    parseRawClientHello (Casket.HelloSpec.encode m) = .ok (Casket.HelloSpec.infoOf m) := by
+  rw [C19_recorded_is_reference_reading, C19_reference_reading_of_wellformed m h]
+
+/-- the skew judge accepts the model's answer for every byte string -/
+theorem C19_skew_model_verdict_ok (bs : Bytes) :
+    ∃ i, parseRawClientHello bs = .ok i ∧ Casket.HelloSpec.skewVerdict bs (some i) = "ok" :=
+  ⟨_, C19_recorded_is_reference_reading bs, by simp [Casket.HelloSpec.skewVerdict]⟩
+
+/-- a well-formed message exists: TLS 1.2, two ciphers, curves 29/23, one point format -/
+example : Casket.HelloSpec.WF
+    { version := 771, random := List.replicate 32 7, sid := [], ciphers := [0x1301, 0xc02b],
+      compression := [0], exts := some [.other 0 [1, 2], .curves [29, 23], .points [0]] } :=
+  { version := by decide, random := by decide, sid := by decide,
+    ciphers := by intro c hc; simp at hc; rcases hc with rfl | rfl <;> decide,
+    nciphers := by decide, compression := by decide,
+    exts := by
+      intro es he
+      cases he
+      refine ⟨?_, by decide⟩
+      intro e hm
+      simp at hm
+      rcases hm with rfl | rfl | rfl
+      · exact ⟨by decide, by decide, by decide, by decide⟩
+      · refine ⟨?_, by decide⟩
+        intro c hc; simp at hc; rcases hc with rfl | rfl <;> decide
+      · show ([0] : Bytes).length < 256; decide,
+    total := by decide }
 
 /-! ### model answers satisfy the judge -/
 
